@@ -121,6 +121,7 @@ func TestC08(t *testing.T) {
 	blocks := int(envInt("VERIF_BLOCKS", 130))
 	defer func() { time.Local = time.UTC }()
 	c08RepeatedEvaluation(t, r)
+	c08PeriodicSweeps(t, r)
 	for c := 0; c < r.N; c++ {
 		seed := r.Rng.Int63()
 		if c%2 == 1 {
@@ -332,4 +333,75 @@ func c08RepeatedEvaluation(t *testing.T, r *Rec) {
 		r.Op(line, out)
 		r.Stat("repeat.evidence")
 	}
+}
+
+// c08PeriodicSweeps: the housekeeping that only runs at height classes the random histories rarely
+// reach (every 10 / 50 / 100 / 300 / 303 blocks: liveness sweep, snapshot build, metrics, balance and
+// reference-block requests, the sweep that jails validators lacking accounts on supported chains).
+// Twin execution up to height 310 with several supported chains on which no validator has an account,
+// so that those sweeps have several items to iterate over; everything the sweeps store (jail reasons
+// included) is part of the compared store digests.
+func c08PeriodicSweeps(t *testing.T, r *Rec) {
+	defer c08SetEnv(false)
+	opts := FullAppOpts{NumValidators: 5, NumUsers: 2, Seed: 800 + r.Seed%100}
+	var tw [2]*FullApp
+	for i := range tw {
+		c08SetEnv(i == 1)
+		fa := NewFullApp(t, opts)
+		fa.KeepAliveAll()
+		if _, err := fa.ActivateEVMChain(FAEvmChain{RefID: "test-chain", ABI: c05CompassABI(t), Bytecode: []byte{0x60, 0x01}}); err != nil {
+			t.Fatal(err)
+		}
+		// four more supported chains without a single validator account
+		for k, ref := range []string{"zeta-chain", "alpha-chain", "mid-chain", "beta-chain"} {
+			if _, err := fa.ActivateEVMChain(FAEvmChain{RefID: ref, ChainID: uint64(5000 + k), ABI: c05CompassABI(t), Bytecode: []byte{0x60, 0x01}, SkipValidators: true, SkipSnapshot: true}); err != nil {
+				t.Fatal(err)
+			}
+		}
+		tw[i] = fa
+	}
+	equal := func(what string) bool {
+		a, b := tw[0], tw[1]
+		same := a.Height() == b.Height() && hex.EncodeToString(a.AppHash()) == hex.EncodeToString(b.AppHash()) &&
+			hex.EncodeToString(a.LastResultsHash()) == hex.EncodeToString(b.LastResultsHash())
+		out := "equal"
+		if !same {
+			out = "diverged"
+			r.Hit("twin_execution_equal", fmt.Sprintf("periodic sweeps, %s at height %d/%d: stores %v", what, a.Height(), b.Height(), FADiffDigests(a.StoreDigest(), b.StoreDigest())),
+				map[string]interface{}{"scenario": "c08PeriodicSweeps", "opts": fmt.Sprintf("%+v", opts), "env_on_twin_b": c08EnvVars})
+		}
+		r.Op(fmt.Sprintf("block %d 0", a.Height()), out)
+		return same
+	}
+	if !equal("setup") {
+		return
+	}
+	for _, target := range []int64{100, 200, 299, 300, 301, 302, 303, 304, 310} {
+		for i, fa := range tw {
+			c08SetEnv(i == 1)
+			if fa.Height() < target {
+				if b := fa.AdvanceTo(target); !b.OK() {
+					t.Fatalf("c08PeriodicSweeps: block failed: %v %s", b.Err, b.Panic)
+				}
+			}
+			if i == 1 && target == 300 {
+				fa.Restart()
+			}
+			// keep the relayers alive on both twins alike (the liveness sweep is not what is tested here)
+			if target%100 == 0 {
+				fa.KeepAliveAll()
+			}
+		}
+		if !equal(fmt.Sprintf("advance to %d", target)) {
+			return
+		}
+	}
+	jailed := 0
+	for i := range tw[0].Vals {
+		if j, _ := tw[0].App().ValsetKeeper.IsJailed(tw[0].CtxCached(), tw[0].ValAddr(i)); j {
+			jailed++
+		}
+	}
+	r.Stat(fmt.Sprintf("sweeps.jailed_for_missing_chains.%d", jailed))
+	r.Case("periodic-sweeps", jailed > 0)
 }
